@@ -471,6 +471,25 @@ func c10ParamsOf(p c10Params) csrtypes.Params {
 	return csrtypes.NewParams(p.Enable, sdkmath.LegacyNewDecFromBigIntWithPrec(bigOf(p.Share), 18))
 }
 
+// c10GhostParams: a parameter update that is executed on a branch of state and then DISCARDED (a governance proposal whose
+// later message fails, a simulation): with probability 1/4 (always in a replay) the csr parameters are set to a different
+// share on a throw-away branch before the operation.  On code whose parameters live in the store this has no effect; a
+// parameter set memoised outside the store would now split the next fee with a share that was never committed.
+func c10GhostParams(a *app.Canto, ctx sdk.Context, cur c10Params) {
+	if ghostOff || !(ghostAlways || ghostRng.Intn(4) == 0) {
+		return
+	}
+	defer func() { _ = recover() }()
+	one := new(big.Int).Exp(big.NewInt(10), big.NewInt(18), nil)
+	share := new(big.Int).Sub(one, bigOf(cur.Share))
+	if share.Cmp(bigOf(cur.Share)) == 0 || share.Sign() < 0 {
+		share = new(big.Int).Div(one, big.NewInt(4))
+	}
+	g, _ := ctx.CacheContext()
+	a.CSRKeeper.SetParams(g, csrtypes.NewParams(true, sdkmath.LegacyNewDecFromBigIntWithPrec(share, 18)))
+	GhostRuns++
+}
+
 // c10Start builds the initial state of a case in a branch of the fixture context.
 func c10Start(e *Env, f *c10Fix, kase *c10Case) *c10Live {
 	ctx, _ := f.ctx.CacheContext()
@@ -521,6 +540,7 @@ func (lv *c10Live) exec(e *Env, c int, op c10Op) bool {
 		lv.params = *op.SetParams
 		changed = true
 	}
+	c10GhostParams(f.a, lv.ctx, lv.params)
 	for _, s := range op.CodeOn {
 		c10SetCode(f, lv.ctx, common.HexToAddress(s), true)
 		changed = true
